@@ -1535,8 +1535,224 @@ const CORPUS: &[(&str, &[u8])] = &[
 	("misc", b".addr 0; .global a; .du8 (a + -9223372036854775807) + -9223372036854775807; .const a, 1;"),
 ];
 
+/// Constructs whose diagnostic path no generated program reached (found with tools/coverage.sh). Each entry is a whole
+/// main file in which the offending statement starts at (line, col); the FIRST diagnostic must carry exactly that
+/// position in main.asm and its rendered message chain must contain the fragment.
+const POSITIONED: &[(&str, &str, u32, u32, &str)] = &[
+	// Evaluation::Deferred in the strict directives: the operand is declared (.global) but has no value yet
+	("deferred-operand", ".global g9;\n  .addr g9;", 2, 3, "failed to apply .addr <- no such local constant \"g9\""),
+	("deferred-operand", ".addr 0x100;\n.global g9;\n\t.align g9;", 3, 2, "failed to apply .align <- no such local constant \"g9\""),
+	("deferred-operand", ".global g9;\n.const c9, g9;", 2, 1, "failed to apply .const <- no such local constant \"g9\""),
+	("deferred-operand", ".addr 0x100;\n.global g9;\n.const c9, (g9 + 1) * 2;\n.const g9, 1;", 3, 1, "failed to apply .const <- no such local constant \"g9\""),
+	("deferred-operand", ".addr 0x100;\n.global g9; .addr g9 | 0x200;\n.const g9, 1;", 2, 13, "failed to apply .addr <- no such local constant \"g9\""),
+	("deferred-operand", ".addr 0x100;\n.global g9; .global h9; .align h9 + g9;\n", 2, 25, "failed to apply .align <- no such local constant \"h9\""),
+	// TooManyArguments of every directive
+	("arity-many", ".addr 0x100; .align 1, 2;", 1, 14, "too many arguments for \".align\" (max 1, have 2)"),
+	("arity-many", ".addr 0x100;\n.const a9, 1, 2;", 2, 1, "too many arguments for \".const\" (max 2, have 3)"),
+	("arity-many", ".global a9, b9;", 1, 1, "too many arguments for \".global\" (max 1, have 2)"),
+	("arity-many", ".import a9, b9;", 1, 1, "too many arguments for \".import\" (max 1, have 2)"),
+	("arity-many", ".export a9, b9, c9;", 1, 1, "too many arguments for \".export\" (max 1, have 3)"),
+	("arity-many", "\n\n .include \"a.asm\", \"b.asm\";", 3, 2, "too many arguments for \".include\" (max 1, have 2)"),
+	("arity-many", ".addr 0x100; .dstr \"a\", \"b\";", 1, 14, "too many arguments for \".dstr\" (max 1, have 2)"),
+	("arity-many", ".addr 0x100; .dhex \"00\", \"11\";", 1, 14, "too many arguments for \".dhex\" (max 1, have 2)"),
+	("arity-many", ".addr 0x100; .dfile \"main.asm\", \"main.asm\";", 1, 14, "too many arguments for \".dfile\" (max 1, have 2)"),
+	("arity-many", ".addr 0x100, 0x200;", 1, 1, "too many arguments for \".addr\" (max 1, have 2)"),
+	("arity-many", ".addr 0x100; .du16 1, 2;", 1, 14, "too many arguments for \".du16\" (max 1, have 2)"),
+	("arity-many", ".addr 0x100; .du32 1, 2, 3;", 1, 14, "too many arguments for \".du32\" (max 1, have 3)"),
+	// wrong argument type after evaluation
+	("kind-evaluated", ".addr 0x100; .align \"s\";", 1, 14, "invalid argument #1 to \".align\" (expect constant, got string)"),
+	("kind-evaluated", ".addr 0x100; .align R0;", 1, 14, "invalid argument #1 to \".align\" (expect constant, got identifier)"),
+	("kind-evaluated", ".addr 0x100; .align {4};", 1, 14, "invalid argument #1 to \".align\" (expect constant, got sequence)"),
+	("kind-evaluated", ".addr 0x100; .align [4];", 1, 14, "invalid argument #1 to \".align\" (expect constant, got address)"),
+	("kind-evaluated", ".const c9, \"s\";", 1, 1, "invalid argument #2 to \".const\" (expect constant, got string)"),
+	("kind-evaluated", ".const c9, sp;", 1, 1, "invalid argument #2 to \".const\" (expect constant, got identifier)"),
+	("kind-evaluated", ".const c9, f9(1);", 1, 1, "invalid argument #2 to \".const\" (expect constant, got function call)"),
+	("kind-evaluated", ".const c9, R1 + 1;", 1, 1, "invalid argument #2 to \".const\" (expect constant, got addition)"),
+	// operand kinds the operators reject (simplify_raw: lhs, rhs, address, negate, not)
+	("kind-operator", ".addr 0x100; .du8 [[R0]];", 1, 14, "address not supported for address"),
+	("kind-operator", ".addr 0x100; .du8 [\"s\"];", 1, 14, "address not supported for string"),
+	("kind-operator", ".addr 0x100; .du8 [{1}];", 1, 14, "address not supported for sequence"),
+	("kind-operator", ".addr 0x100; .du8 1 + \"a\";", 1, 14, "addition not supported for string"),
+	("kind-operator", ".addr 0x100; .du8 {1} * 2;", 1, 14, "multiplication not supported for sequence"),
+	("kind-operator", ".addr 0x100; .du8 2 << [1];", 1, 14, "left shift not supported for address"),
+	("kind-operator", ".addr 0x100; .du8 -\"s\";", 1, 14, "negation not supported for string"),
+	("kind-operator", ".addr 0x100; .du8 ![1];", 1, 14, "binary not not supported for address"),
+	("kind-operator", ".addr 0x100; LDR R0, [R1 + [R2]];", 1, 14, "addition not supported for address"),
+	// register operands that are no registers, lists with non-names, address shapes
+	("operand", ".addr 0x100; MOVS longname9, 1;", 1, 14, "has invalid register \"longname9\""),
+	("operand", ".addr 0x100; MOVS R0, R1R1R;", 1, 14, "no such"),
+	("operand", ".addr 0x100; ADCS R0, R1234;", 1, 14, "for ADCS has invalid register \"R1234\""),
+	("operand", ".addr 0x100; PUSH {R0, longname9};", 1, 14, "for PUSH has invalid register \"longname9\""),
+	("operand", ".addr 0x100; PUSH {1};", 1, 14, "invalid argument #1 for PUSH (expect identifier, got constant)"),
+	("operand", ".addr 0x100; POP {R0, \"s\"};", 1, 14, "invalid argument #1 for POP (expect identifier, got string)"),
+	("operand", ".addr 0x100; LDM R0, {R1, R2 + 0};", 1, 14, "invalid argument #2 for LDM (expect identifier, got addition)"),
+	("operand", ".addr 0x100; MRS R0, 5;", 1, 14, "invalid argument #2 for MRS"),
+	("operand", ".addr 0x100; MRS R0, NOSUCHSYSTEMREGISTER;", 1, 14, "for MRS has invalid register \"NOSUCHSYSTEMREGISTER\""),
+	("operand", ".addr 0x100; MSR toolongname, R0;", 1, 14, "for MSR has invalid register \"toolongname\""),
+	("operand", ".addr 0x100; LDR R0, [R1 + R2 + R3];", 1, 14, "for LDR is out of range"),
+	("operand", ".addr 0x100; LDR R0, [R1 + R2 + 4];", 1, 14, "for LDR is out of range"),
+	("operand", ".addr 0x100; LDR R0, [R1 + 4 + R2];", 1, 14, "for LDR is out of range"),
+	("operand", ".addr 0x100; STR R0, [R1 - 4];", 1, 14, "for STR is out of range"),
+	("operand", ".addr 0x100; LDRB R0, [R1 + 0x100000000];", 1, 14, "for LDRB is out of range"),
+	("operand", ".addr 0x100; LDR R0, [longname9];", 1, 14, "no such local constant \"longname9\""),
+	// the region is full: immediate statements of every kind at the end of the address space and below an occupied address
+	("full", ".addr 0xFFFFFFFE; .align 7;", 1, 19, "could not write alignment bytes <- segment overflow (need 5, capacity 2)"),
+	("full", ".addr 0xFFFFFFFD; .du8 1; .align 0x10003;", 1, 27, "could not write alignment bytes <- segment overflow"),
+	("full", ".addr 0x104; .du8 1; .addr 0x100; .du8 2; .align 8;", 1, 43, "could not write alignment bytes <- segment overflow (need 7, capacity 3)"),
+	("full", ".addr 0xFFFFFFFF; .du16 1;", 1, 19, "could not write data to segment <- segment overflow (need 2, capacity 1)"),
+	("full", ".addr 0xFFFFFFFD; .du32 fwd; .const fwd, 1;", 1, 19, "could not write data to segment <- segment overflow (need 4, capacity 3)"),
+	("full", ".addr 0xFFFFFFFF; .dstr \"ab\";", 1, 19, "could not write data to segment <- segment overflow (need 2, capacity 1)"),
+	("full", ".addr 0xFFFFFFFF; .dhex \"0102\";", 1, 19, "could not write data to segment <- segment overflow (need 2, capacity 1)"),
+	("full", ".addr 0xFFFFFFFF; .dfile \"main.asm\";", 1, 19, "could not write data to segment <- segment overflow"),
+	("full", ".addr 0xFFFFFFFF; NOP;", 1, 19, "could not write instruction to segment <- segment overflow (need 2, capacity 1)"),
+	("full", ".addr 0xFFFFFFFE; BL fwd; fwd:", 1, 19, "could not write instruction to segment <- segment overflow (need 4, capacity 2)"),
+	("full", ".addr 0xFFFFFFFE; UDF.W 1;", 1, 19, "could not write instruction to segment <- segment overflow (need 4, capacity 2)"),
+	("full", ".addr 0xFFFFFFFF; B fwd; fwd:", 1, 19, "could not write instruction to segment <- segment overflow (need 2, capacity 1)"),
+	("full", ".addr 0x102; NOP; .addr 0x100; NOP; SVC fwd; .const fwd, 1;", 1, 37, "could not write instruction to segment <- segment overflow (need 2, capacity 0)"),
+	("full", ".addr 0x102; NOP; .addr 0x100; NOP; .du8 fwd; .const fwd, 1;", 1, 37, "could not write data to segment <- segment overflow (need 1, capacity 0)"),
+];
+
+/// multi-file scenarios: (class, files, expectation) — `Some((file, line, col, fragment))` = the first diagnostic, `None` = must assemble
+const SCENARIOS: &[(&str, &[(&str, &[u8])], Option<(&str, u32, u32, &str)>)] = &[
+	// a Fatal error inside a task that runs at finalize (the value arrives through .import after the child was assembled): the
+	// remaining global tasks are dropped, the failure is reported
+	("fatal-at-finalize", &[("main.asm", b".addr 0x100;\n.global g9;\n.include \"c.asm\";\n.const g9, 0x10000001;\n"),
+		("c.asm", b".import g9;\n B g9;\n.du8 g9;\nBL g9;\n")], Some(("c.asm", 2, 2, "label out of range"))),
+	("fatal-at-finalize", &[("main.asm", b".addr 0x100;\n.global g9;\n.include \"c.asm\";\n.const g9, 256;\n"),
+		("c.asm", b".import g9;\n MOVS R0, g9;\n.du8 g9;\nADDS R1, R1, g9;\n")], Some(("c.asm", 2, 2, "could not encode instruction"))),
+	("fatal-at-finalize", &[("main.asm", b".addr 0x100;\n.global g9;\n.include \"c.asm\";\n.include \"c.asm\";\n.const g9, 3;\n"),
+		("c.asm", b".import g9;\nLDR R0, [R1 + g9];\nADD SP, SP, g9;\nLSLS R0, R1, g9 + 29;\n")], Some(("c.asm", 2, 1, "could not encode instruction"))),
+	("fatal-at-finalize", &[("main.asm", b".addr 0x100;\n.global g9;\n.include \"c.asm\";\n.const g9, 0x40000;\n"),
+		("c.asm", b".import g9;\nNOP; BEQ g9;\nBNE g9;\n")], Some(("c.asm", 2, 6, "label out of range"))),
+	("fatal-at-finalize", &[("main.asm", b".addr 0x100;\n.global g9;\n.include \"c.asm\";\n.const g9, 0x103;\n"),
+		("c.asm", b".import g9;\nLDR R0, g9;\nADR R1, g9;\n")], Some(("c.asm", 2, 1, ""))),
+	// the same values in range: the tasks at finalize complete
+	("value-at-finalize", &[("main.asm", b".addr 0x100;\n.global g9;\n.include \"c.asm\";\n.const g9, 0x120;\n"),
+		("c.asm", b".import g9;\nB g9;\n.du16 g9;\nBL g9;\nLDR R0, g9;\nADR R1, g9;\n")], None),
+	// trivial (non-fatal) errors at finalize: every task still runs, each reports
+	("trivial-at-finalize", &[("main.asm", b".addr 0x100;\n.global g9;\n.include \"c.asm\";\n.const g9, 0x1000;\n"),
+		("c.asm", b".import g9;\n.du8 g9;\nSVC g9;\n.du8 g9 - 0x1000;\n")], Some(("c.asm", 2, 1, "constant out of range"))),
+	// `.include` / `.dfile` of something that exists but is not a readable file (a directory)
+	("unreadable", &[("main.asm", b".addr 0x100;\n  .include \"sub\";\n"), ("sub/x.bin", b"x")], Some(("main.asm", 2, 3, "failed to apply .include"))),
+	("unreadable", &[("main.asm", b".addr 0x100;\n.include \"sub/\";\n"), ("sub/x.bin", b"x")], Some(("main.asm", 2, 1, "failed to apply .include"))),
+	("unreadable", &[("main.asm", b".addr 0x100;\n.include \".\";\n")], Some(("main.asm", 2, 1, "failed to apply .include"))),
+	("unreadable", &[("main.asm", b".addr 0x100;\n.du8 1; .dfile \"sub\";\n"), ("sub/x.bin", b"x")], Some(("main.asm", 2, 9, "failed to apply .dfile"))),
+	("unreadable", &[("main.asm", b".addr 0x100;\n.include \"sub/x.bin/y.asm\";\n"), ("sub/x.bin", b"x")], Some(("main.asm", 2, 1, "failed to apply .include <- no such file"))),
+	// diagnostics of an included file carry ITS name and position; the includer reports the failed include at its own statement
+	("in-child", &[("main.asm", b".addr 0x100;\n.include \"c.asm\";\n"), ("c.asm", b"NOP;\n  .align 1, 2;\n")], Some(("c.asm", 2, 3, "too many arguments for \".align\""))),
+	("in-child", &[("main.asm", b".addr 0x100;\n.include \"c.asm\";\n"), ("c.asm", b".global g9;\n.align g9;\n")], Some(("c.asm", 2, 1, "failed to apply .align <- no such local constant"))),
+	("in-child", &[("main.asm", b".addr 0xFFFFFFFE;\n.include \"c.asm\";\n"), ("c.asm", b"NOP;\n.du8 1;\n")], Some(("c.asm", 2, 1, "could not write data to segment"))),
+	("in-child", &[("main.asm", b".addr 0xFFFFFFFE;\n.include \"d/c.asm\";\n"), ("d/c.asm", b".include \"e.asm\";\n"), ("d/e.asm", b"NOP;\n NOP;\n")], Some(("d/e.asm", 2, 2, "could not write instruction to segment"))),
+];
+
 #[derive(Clone, Debug, PartialEq)]
 enum Expect {Any, MustFail}
+
+/// `check_c06` plus the position oracle: the first recorded diagnostic is at (file, line, col) and mentions `fragment`
+fn check_c06_at(cx: &mut Cx, project: &Project, class: &str, dir: &std::path::Path, want: Option<(&str, u32, u32, &str)>)
+{
+	check_c06(cx, project, if want.is_some() {Expect::MustFail} else {Expect::Any}, class, dir);
+	project.write(dir);
+	let Ok(o) = run_real(dir) else {return};   // the panic was reported by check_c06
+	let input = project.to_input();
+	match want
+	{
+		None =>
+		{
+			if !(o.assemble_ok && o.close_err.is_none() && o.finalize && o.errors.is_empty())
+			{
+				cx.report.oracle_fail(input, format!("{class}: a valid program was not assembled cleanly: {:?}", o.errors.iter().take(3).collect::<Vec<_>>()));
+			}
+		},
+		Some((file, line, col, fragment)) =>
+		{
+			let prefix = format!("{}/", dir.display());
+			match o.errors.first()
+			{
+				None => cx.report.oracle_fail(input, format!("{class}: no diagnostic recorded (expected one at {file}:{line}:{col})")),
+				Some((f, l, c, m)) =>
+				{
+					let rel = f.strip_prefix(&prefix).unwrap_or(f);
+					if rel != file || *l != line || *c != col
+					{
+						cx.report.oracle_fail(input, format!("{class}: the first diagnostic is at {rel}:{l}:{c}, the offending statement at {file}:{line}:{col} ({m})"));
+					}
+					else if !m.contains(fragment)
+					{
+						cx.report.oracle_fail(input, format!("{class}: the diagnostic at {file}:{line}:{col} is {m:?}, expected one mentioning {fragment:?}"));
+					}
+				},
+			}
+			if o.finalize && o.close_err.is_none() {cx.report.oracle_fail(project.to_input(), format!("{class}: success reported"));}
+		},
+	}
+}
+
+/// `.include` applied through `DirectiveList::process` on a fresh `Context` (no current file: the path is taken as it is
+/// when absolute): must behave as the same include written in a main file — same image, same success
+fn include_without_current_file(cx: &mut Cx, dir: &std::path::Path)
+{
+	use trion::text::parse::{ElementValue, Parser};
+	use trion::text::Positioned;
+	let child: &[u8] = b".addr 0x200;\nx: .du32 x;\nNOP;\n";
+	for (class, body, ok) in [("ok", child, true), ("failing", &b".addr 0x200;\n.du8 256;\n"[..], false), ("missing", &b""[..], false)]
+	{
+		let p = Project{files: if class == "missing" {vec![("main.asm".to_owned(), Vec::new())]} else {vec![("main.asm".to_owned(), Vec::new()), ("c.asm".to_owned(), body.to_vec())]}};
+		p.write(dir);
+		let abs = dir.join("c.asm");
+		let text = format!(".include \"{}\";", abs.display());
+		let input = format!("include-direct {class}");
+		let r = guarded(||
+		{
+			let directives = DirectiveList::generate();
+			let mut ctx = Context::new(&Arm6M, &directives);
+			let mut results = Vec::new();
+			for el in Parser::new(text.as_bytes())
+			{
+				let el = el.expect("harness text parses");
+				let (line, col) = (el.line, el.col);
+				if let ElementValue::Directive{name, args} = el.value
+				{
+					results.push(directives.process(&mut ctx, Positioned{line, col, value: (name.as_ref(), args)}).is_ok());
+				}
+			}
+			let closed = ctx.close_segment().is_ok();
+			let fin = ctx.finalize();
+			let mut image = BTreeMap::new();
+			for (range, seg) in ctx.output().iter() {for (i, b) in seg.iter().enumerate() {image.insert(range.get_first().wrapping_add(i as u32), *b);}}
+			let errs: Vec<(String, u32, u32)> = ctx.get_errors().iter().map(|e| (e.name.as_ref().clone(), e.line, e.col)).collect();
+			(results, closed, fin, image, errs, ctx.has_curr_file())
+		});
+		cx.report.case(Some(&format!("include-direct {class}")));
+		cx.report.hit(&format!("include without a current file: {class}"));
+		match r
+		{
+			Err(p) => cx.report.oracle_fail(input, format!("panic: {p}")),
+			Ok((results, closed, fin, image, errs, has_file)) =>
+			{
+				if has_file {cx.report.oracle_fail(input.clone(), "a current file remains after the include returned");}
+				if results != vec![ok] || !closed || fin != ok
+				{
+					cx.report.oracle_fail(input.clone(), format!("process = {results:?}, close = {closed}, finalize = {fin}; expected process = [{ok}], finalize = {ok}"));
+				}
+				if ok
+				{
+					// the same file as a main file
+					std::fs::write(dir.join("main.asm"), body).unwrap();
+					match run_real(dir)
+					{
+						Ok(o) => if o.image != image {cx.report.oracle_fail(input.clone(), format!("image {} differs from the image of the same file assembled as main file {}", image_str(&image), image_str(&o.image)));},
+						Err(p) => cx.report.oracle_fail(input.clone(), format!("panic: {p}")),
+					}
+				}
+				else if errs.is_empty() || errs.iter().any(|(f, l, c)| f.is_empty() || *l < 1 || *c < 1)
+				{
+					cx.report.oracle_fail(input.clone(), format!("failure without properly positioned diagnostics: {errs:?}"));
+				}
+			},
+		}
+	}
+}
 
 fn check_c06(cx: &mut Cx, project: &Project, expect: Expect, class: &str, dir: &std::path::Path)
 {
@@ -1667,6 +1883,11 @@ pub fn run(id: &str, cx: &mut Cx)
 			self_include(cx, &dir, rest.trim().parse().unwrap_or(1));
 			return;
 		}
+		if input.starts_with("include-direct")
+		{
+			include_without_current_file(cx, &dir);
+			return;
+		}
 		if let Some((abs, proj)) = input.strip_prefix("layout ").and_then(|r| r.split_once(" | "))
 		{
 			// a model/implementation disagreement of the layout correspondence: re-run both sides
@@ -1782,6 +2003,21 @@ oracle = no panic; success xor (diagnostic with file/line/col or close error); i
 			{
 				check_c06(cx, &Project::single(text.as_bytes()), Expect::MustFail, "write-before-addr", &dir);
 			}
+			// constructs with a known position and message; multi-file scenarios; `.include` without a current file
+			for (class, text, line, col, fragment) in POSITIONED
+			{
+				check_c06_at(cx, &Project::single(text.as_bytes()), class, &dir, Some(("main.asm", *line, *col, fragment)));
+				// the same statement behind a preamble of other lines and characters: the position moves with it
+				let shifted = format!("// \u{e9}\u{20ac}\n/* c\n */\t{text}");
+				let (l2, c2) = if *line == 1 {(3, *col + 4)} else {(*line + 2, *col)};
+				check_c06_at(cx, &Project::single(shifted.as_bytes()), class, &dir, Some(("main.asm", l2, c2, fragment)));
+			}
+			for (class, files, want) in SCENARIOS
+			{
+				let p = Project{files: files.iter().map(|(n, d)| (n.to_string(), d.to_vec())).collect()};
+				check_c06_at(cx, &p, class, &dir, *want);
+			}
+			include_without_current_file(cx, &dir);
 			let n = if cx.thorough() {120_000} else {8_000};
 			let mut made = 0;
 			while made < n
